@@ -16,7 +16,7 @@ from hgsim.util import canon, digest
 
 ID = "C16"
 LEVEL = "exploration"
-BUDGET = {"quick": (8, 200, 45), "thorough": (16, 12000, 600)}
+BUDGET = {"quick": (8, 500, 90), "thorough": (16, 12000, 600)}
 RULE = (
     "seeded general programs (gates incl. cached ones with a warm cache, nested graphs with their own select, mapped nodes, emit/wait_for signals, "
     "optionally one pausing interrupt) x random entry-point sets (non-gate nodes) x graph-level select x run-time select ('**', one name, list) x "
